@@ -270,6 +270,7 @@ func C04(c *Ctx) {
 	c.methodIterationRule("C04-13")
 	c.nodeAccessorRule("C04-14")
 	c.handlerStopRule("C04-15")
+	c.stringerLookupRule("C04-16")
 
 	r.Rule("C04-9", "cast ladder identity: a function that can wrap a node (calls NewTypecast/NewStringer) returns its node parameter X unchanged with ok=true only if reach ⇒ AssignableTo(X.ExprType(), T)")
 	nid := 0
